@@ -1,5 +1,7 @@
 mod core_pp;
+mod crash;
 mod db;
+mod iohook;
 mod util;
 
 fn arg(args: &[String], name: &str) -> Option<String> {
@@ -16,8 +18,14 @@ fn main() {
     if std::env::var("VH_VERBOSE_PANIC").is_err() {
         std::panic::set_hook(Box::new(|_| {}));
     }
+    match cmd.as_str() {
+        "crash-child" => std::process::exit(crash::child(&args)),
+        "dump" => std::process::exit(crash::dump(&args)),
+        _ => {}
+    }
     let mut sink = util::Sink::new();
     match cmd.as_str() {
+        "crash" => crash::run(&args, &mut sink),
         "core-pp" => core_pp::run(seed, cases, &mut sink),
         "db-scenario" => {
             let name = arg(&args, "--name").unwrap_or_default();
